@@ -1,4 +1,5 @@
 """C12 - namespace selectors compare namespace URIs through the supplied prefix map."""
+import bs4
 import lib, campaign, matchcheck
 from lib import Check
 from props import C01
@@ -102,6 +103,42 @@ def run(tier, seed):
                                  'added, although every compound has an explicit prefix',
                                  {'pattern': pat, 'namespaces': base, 'default_added': d, 'markup': matchcheck.markup_of(sc), 'tree': sc.label})
                     break
+    # elements without a namespace inside a namespace-aware HTML tree (added through the bs4 API): their namespace URI is
+    # absent, so |E and a default '' entry designate them, ns|E with ns bound to XHTML does not
+    XH = 'http://www.w3.org/1999/xhtml'
+    for sc0 in campaign.build(rnd, 'ns', n // 3, 0, modes=['html5lib']):
+        top = sc0.top
+        hosts = [e for e in top.find_all(True) if e.name in ('body', 'div', 'p', 'span', 'section', 'ul')] or top.find_all(True)
+        if not hosts or not isinstance(top, bs4.BeautifulSoup):
+            continue
+        added = []
+        for k_ in range(rnd.randint(1, 3)):
+            t_ = top.new_tag(rnd.choice(['span', 'added', 'p']), id='added%d' % k_)
+            rnd.choice(hosts).append(t_)
+            added.append(t_)
+        if any(t_.namespace for t_ in added):
+            continue
+        sc = e1.Scenario(top, sc0.label + '/api-added')
+        sc.meta = {}
+        for pat, ast_, nsm in (('|*', [[{'type': ('', '*')}]], None), ('h|*', [[{'type': ('h', '*')}]], {'h': XH}),
+                               ('*', [[{'type': (None, '*')}]], {'': XH}), ('span, added, p', [[{'type': (None, 'span')}], [{'type': (None, 'added')}], [{'type': (None, 'p')}]], {'': ''}),
+                               ('|span, |added, |p', [[{'type': ('', 'span')}], [{'type': ('', 'added')}], [{'type': ('', 'p')}]], {'h': XH}),
+                               ('*|*:not(h|*)', [[{'type': ('*', '*'), 'pseudos': [('not', [[{'type': ('h', '*')}]])]}]], {'h': XH})):
+            ops = [('select', (), 0)] + [('match', sc.path_of[id(e)]) for e in added]
+            sc.add(pat, ops, namespaces=nsm)
+            sc.meta[pat] = ast_
+            with warnings.catch_warnings():
+                warnings.simplefilter('ignore')
+                got = {id(e) for e in sv.select(pat, top, namespaces=nsm)}
+            want_added = pat in ('|*', 'span, added, p', '|span, |added, |p', '*|*:not(h|*)')
+            ck.count(('api-added', pat, want_added))
+            bad = [t_ for t_ in added if (id(t_) in got) != want_added]
+            if bad:
+                ck.violation(f'{pat!r} with namespaces {nsm!r} {"does not select" if want_added else "selects"} an element that has no namespace '
+                             '(added with new_tag to an html5lib tree)',
+                             {'pattern': pat, 'namespaces': nsm, 'markup': matchcheck.markup_of(sc), 'added': [str(t_) for t_ in bad],
+                              'element_namespace': None})
+        scs.append(sc)
     # the prefix map is read when the selector is compiled: what the caller does to its own dictionary afterwards changes nothing
     for sc in campaign.build(rnd, 'ns', n // 3, 0, depth=1):
         top = sc.top
